@@ -695,6 +695,15 @@ def measure_checks(ctx, rng, station, given, date, lk, tols, w, measures, sfx, o
                 ctx.violation(f"C11/measure-{cls_name.lower()}-raises", dict(wm, exc=repr(exc)), f"{cls_name}.from_orbit raised {exc!r}")
                 continue
             ctx.count(f"measure:{cls_name}:legs{min(legs, 2)}")
+            # the residual of an observed measure against the simulated one is the difference of their values
+            try:
+                obs_val = val + rng.choice([-1.0, 1.0]) * 10 ** rng.uniform(-6, 2)
+                res = M(path, got.date, obs_val) - got
+                ctx.count("measure:residual")
+                ctx.expect(float(res.value) == obs_val - val and res.date == got.date and res.frame is first, "C11/measure-residual", dict(wm, observed=obs_val, simulated=val, residual=float(res.value)),
+                           f"{cls_name}: observed - simulated = {float(res.value)!r}, values differ by {obs_val - val!r}")
+            except Exception as exc:
+                ctx.violation(f"C11/measure-{cls_name.lower()}-raises", dict(wm, exc=repr(exc), step="residual"), f"{cls_name} residual raised {exc!r}")
             if cls_name == "Range":
                 ctx.resid("measure:range" + sfx, abs(val - legs * lk["range"]), legs * tol_pos, key="C11/measure-range-legs", witness=dict(wm, got=val, legs=legs),
                           msg=f"Range over {legs} leg(s) = {val!r}, topocentric range {lk['range']!r} x {legs}")
